@@ -20,12 +20,15 @@ CLAIMED = {
  "C17": dict(text="Coq theorems (C17/Props.v): indexed_query_eq_full_scan - for ANY table (any data incl. Missing cells and duplicates), ANY index column list and ANY keyword condition (= != < <= > >= in !in), the rows selected through the index after Table.index, "
                   "in order and multiplicity, are exactly the rows a full scan of the re-ordered column selects. It composes index_establishes_the_invariant (by induction over the index levels: each level sorts positions inside the current runs, refines the runs by "
                   "equal values, later levels do not move earlier columns; index only permutes rows) with where_on_invariant_eq_scan (the runs of every level chain-partition the table; per run bisect_eq_scan: bisect ranges on a sorted segment = scan; "
-                  "my_bisect shortcuts sound incl. the empty range; sorted(set(arg)) sorted/distinct/same members). Insert (rows, ragged dicts), index, where/where-of-where, groupby and copy are tied by operation-sequence correspondence with the extracted model "
+                  "my_bisect shortcuts sound incl. the empty range; sorted(set(arg)) sorted/distinct/same members). Further: where_with_several_conditions_is_the_union (several keyword conditions select every row satisfying at least one, once, in table order); "
+                  "invariant_is_lexicographic_order (the level-by-level invariant holds exactly when the rows are lexicographically sorted by their index key); views_keep_the_invariant + where_of_where_is_the_conjunction "
+                  "(a where on the result of a where selects exactly the rows satisfying both, in table order); groupby_partitions_by_index_prefix (the groups chain-partition the rows and two rows share a group exactly when they agree on the "
+                  "first `level` index columns). Insert (rows, ragged dicts), index, where/where-of-where, groupby and copy are tied by operation-sequence correspondence with the extracted model "
                   "and checked against an independent list-of-rows oracle (permutation + lexicographic sortedness for index, partition for groupby).",
             note="Trusted: Coq kernel, extraction+driver, harness. CPython bisect/sorted are modelled by their specifications (stable insertion sort); View index arithmetic is modelled as the table of selected rows (refinement) and tied by correspondence; "
-                 "multi-keyword where (sorted set of the union), where-of-where, groupby and insert have no theorem of their own (correspondence + oracle). 'match'/callables: oracle only. Two open findings (stale index after insert, copy shares column lists) "
+                 "insert (rows, ragged dicts) and copy have no theorem of their own (correspondence + oracle); the theorems about views assume the index columns exist and are pairwise distinct. 'match'/callables: oracle only. Two open findings (stale index after insert, copy shares column lists) "
                  "are exactly the situations in which the invariant's hypothesis fails.",
-            technique="Coq proof (index invariant by induction over levels, sorted-segment interval lemmas, chain partition of runs) + extracted-model op-sequence correspondence", design="§5 C17"),
+            technique="Coq proof (index invariant by induction over levels = lexicographic order, sorted-segment interval lemmas, chain partition of runs, views as increasing selections) + extracted-model op-sequence correspondence", design="§5 C17"),
  "C09": dict(text="Coq theorems (C09/Props.v) over a position model of the filters: Shuffle and Riffle are permutations, Sort is a stable ordering (permutation + sorted + equal keys keep input order), "
                   "Slice positions, Reservoir yields min(n,N) distinct in-range positions for ANY skip lengths (strict: n or nothing), Where's peek of max+1 interactions decides the range exactly "
                   "(theorem over the generated _in_min_max and peek flag), Batch then Unbatch is the identity. Tied to the code by the translator and by position-recovery correspondence "
@@ -39,11 +42,12 @@ CLAIMED = {
                   "with the code; an independent Fraction oracle covers scalar contexts, std, Environments.impute/scale and filter objects reused on other data.",
             note="Trusted: Coq kernel, extraction+driver, harness (tolerance 1e-9 between exact rationals and binary64). std (sqrt) and scalar contexts are oracle-only; the sparse variants have no cell-level theorem (correspondence only). NaN inputs are not generated.",
             technique="Coq proof over exact-rational model + extracted-model correspondence + Fraction oracle", design="§5 C11"),
- "C18": dict(text="Coq theorems (C18/Props.v): moving_average's sliding/prefix accumulations equal the sums of the last min(span,i+1) / first i+1 entries (for numerators and weights), "
+ "C18": dict(text="Coq theorems (C18/Props.v): moving_average's sliding/prefix accumulations equal the sums of the last min(span,i+1) / first i+1 entries (for numerators and weights); moving_average_is_textbook: for EVERY span (None, the span=1 shortcut, below/at/above the length) and with or without explicit weights, "
+                  "entry i times the window's weight sum equals the window's weighted value sum times the denominator (the textbook quotient, cross-multiplied); exponential_moving_average_closed_form: weights='exp' gives sum r^(i-j) v_j / sum r^(i-j), r = 1-2/(1+span), in exact rationals; "
                   "where_fin(l,p) keeps exactly the pairing groups with one evaluation per level (iff), its result is closed under its own levels, where_fin(n=k,l,p) yields equal-length complete groups, "
                   "'min' truncates to the minimum. The extracted model is compared with Result.where_fin / moving_average on generated Results; a naive recomputation oracle covers table consistency, "
                   "unchanged values, raw_learners averages and where/where_fin/where_best chains.",
-            note="Trusted: Coq kernel, extraction+driver, harness. The Table/View machinery, _remove and _grouped_ys are not modelled here (end-to-end comparison only); the 'exp' weighting has a model but no closed-form theorem; "
+            note="Trusted: Coq kernel, extraction+driver, harness. The Table/View machinery, _remove and _grouped_ys are not modelled here (end-to-end comparison only); the 'exp' closed form is over exact rationals (binary64 rounding compared with tolerance 1e-9); "
                  "raw_learners and where_best are oracle-only; span=0 is outside the property as read (division by zero by construction).",
             technique="Coq proof (pigeonhole on levels, prefix-sum algebra) + extracted-model correspondence + recomputation oracle", design="§5 C18"),
  "C13": dict(text="Coq theorem lazy_eq_eager (C13/Props.v): for every well-formed pipeline of HeadRows / EncodeRows / DropRows (by position and name) / LabelRows.feats stages and every dense row, iteration, "
